@@ -55,8 +55,16 @@ def execute(case):
 
     def phase(c, which):
         ident = [c, which]
-        add_teardown_callback(lambda: log(ev="td", id=ident))
-        log(ev="reg", id=ident)
+
+        def callback():
+            log(ev="td", id=ident)
+            if prog.get("late") and ident == [1, "prepare"]:
+                # registered while the root context is being torn down (allowed); it has to run too
+                late = [1, "late"]
+                add_teardown_callback(lambda: log(ev="td", id=late))
+                log(ev="reg", id=late, late=True)
+        add_teardown_callback(callback)
+        log(ev="reg", id=ident, late=False)
 
     def fails(c, ph):
         return end["kind"] == "fail" and end["c"] == c and end["phase"] == ph
@@ -192,7 +200,7 @@ def run(tier: str, seed: int) -> core.Report:
         if not v["ok"]:
             c = by[t["id"]]
             rep.violations.append(core.Violation(PROP, v["why"], f"C15:{v['why']}:{c['prog']['end']['kind']}", {"case": c}, {"events": t["events"], "step": v["step"]}))
-    need = {"return-result", "exit-result", "raise-runraises", "exit-fail", "exit-timeout", "exit-signal", "return-signal", "raise-crash", "any"}
+    need = {"return-result", "exit-result", "raise-runraises", "exit-fail", "exit-timeout", "exit-signal", "return-signal", "raise-crash", "any", "callback-registered-during-teardown-ran"}
     if not need <= set(hits) and not rep.violations:
         raise core.MachineryError(f"vacuous: monitor clauses never exercised: {sorted(need - set(hits))}")
     rep.distinct_nontrivial = len({json.dumps(t["prog"], sort_keys=True) for t in traces if sum(1 for e in t["events"] if e["ev"] == "reg") >= 2})
